@@ -34,6 +34,21 @@ func init() {
 				p.Scenario = g.LadderScenario(p.Knobs.Targets[0], maxTx+5)
 			}
 			p.Sched = g.RandSched()
+			if g.chance(1, 4) {
+				// a rollback is initialised, validated and committed in several store writes per target: a write that fails or
+				// loses its acknowledgement, or a crash, in between must not leave a rollback done on some targets only
+				p.Profile += "+store-faults"
+				for i := 0; i <= g.pick(2); i++ {
+					switch g.pick(3) {
+					case 0:
+						p.Faults = append(p.Faults, Fault{Kind: "crash", On: "effect", N: 5 + g.pick(150)})
+					case 1:
+						p.Faults = append(p.Faults, Fault{Kind: "op-unavail", On: "write", N: 5 + g.pick(200)})
+					default:
+						p.Faults = append(p.Faults, Fault{Kind: "op-acklost", On: "write", N: 5 + g.pick(200)})
+					}
+				}
+			}
 			p.Knobs.ConnLate = map[string]bool{}
 			p.Knobs.NoDevice = map[string]bool{}
 			for _, t := range p.Knobs.Targets {
